@@ -16,7 +16,7 @@ runpat="^($(grep -o '^func Test[A-Za-z0-9_]*' "$d/demo_test.go" 2>/dev/null | se
 pkgs=". ./internal/..."
 if [ -f "$d/demo.sh" ]; then
   # self-contained shell demonstration taking the worktree in W
-  run_demo() { W="$wt" sh "$d/demo.sh" >"$1" 2>&1; }
+  run_demo() { W="$wt" bash "$d/demo.sh" >"$1" 2>&1; }
 elif [ -f "$d/run.sh" ]; then
   # script-style demonstration (expects to live in <worktree>/mutant/<k>/)
   run_demo() { mkdir -p mutant/k9; cp -r "$d"/run.sh "$d"/demo mutant/k9/ 2>/dev/null; sh mutant/k9/run.sh >"$1" 2>&1; rc=$?; rm -rf mutant; return $rc; }
